@@ -51,6 +51,8 @@ FLAVOURS = {
     # (__OPTIMIZE_SIZE__ paths; alignment assumptions that only bite with SSSE3-era aligned loads)
     "os": ("gcc", "-Os -g", ""),
     "v2": ("gcc", "-O2 -g -march=x86-64-v2", ""),
+    # what distributions moving to x86-64-v3 ship (AVX2, BMI1/2: __BMI__, __AVX2__ select other code)
+    "v3": ("gcc", "-O2 -g -march=x86-64-v3", ""),
     "so-ndebug": ("gcc", "-O2 -g -fPIC -DPIC -DNDEBUG", ""),
     "so-uchar": ("gcc", "-O2 -g -fPIC -DPIC -funsigned-char", ""),
     "so-asan": ("gcc", "-O1 -g -fno-omit-frame-pointer -fPIC -DPIC "
@@ -312,7 +314,7 @@ class Tree:
         return out
 
     def program(self, flavour, src, name=None, wrap=True, libs="", extra_cflags="",
-                with_objects=True, replace=None):
+                with_objects=True, replace=None, consumer=False):
         """Compile harness/<src> and link it with the library OBJECTS of
         flavour (never an archive: sanitizer runtimes intercept crypt/crypt_r)."""
         cc, cflags, ldflags = FLAVOURS[flavour]
@@ -328,9 +330,11 @@ class Tree:
             w = ""
             if wrap:
                 w = " ".join("-Wl,--wrap=" + x for x in WRAPS)
-            cmd = ("%s -std=gnu11 -D_GNU_SOURCE -DHAVE_CONFIG_H -DIN_LIBCRYPT -D%s %s %s -I%s -I%s -I%s "
+            # consumer: an application - it sees the generated <crypt.h> only, with none of the library's own macros
+            defs = "-D_GNU_SOURCE" if consumer else "-D_GNU_SOURCE -DHAVE_CONFIG_H -DIN_LIBCRYPT -D" + GUARD
+            cmd = ("%s -std=gnu11 %s %s %s -I%s -I%s -I%s "
                    "%s %s -o %s.tmp %s %s %s -lpthread -ldl" % (
-                       cc, GUARD, cflags, extra_cflags, gd,
+                       cc, defs, cflags, extra_cflags, gd,
                        os.path.join(REPO, "lib"), HARNESS,
                        os.path.join(HARNESS, src), " ".join(objs), out,
                        ldflags, w, libs))
